@@ -41,22 +41,28 @@ def split_guard(db, ctx):
     f = db.one("split_path", None)
     early = any(pol and ek in ("ok", "ret") and "Mode::C" in render(cond) and cmp_atom(cond) and cmp_atom(cond)[0] == "Eq" for ifn, cond, pol, ek, ps in guarded_exits(f.hir))
     ctx.ob("mode-C-unchanged", early, "`if mode == Mode::C { return Ok(path) }`: %s" % early, fn=f)
+    from ..flow import reachable_at, is_local_from_call
+    isv = is_local_from_call("ResultNode::num_splits")
     loops = list(_loops(f))
     ok = False
     detail = ""
     if len(loops) == 1:
         n, (it, pat, body), ps = loops[0]
         plain = local_name(it) == "path"
-        ifs = [x for x, _ in walk(body) if x.get("k") == "If"]
-        if len(ifs) == 1:
-            c = cmp_atom(ifs[0]["cond"])
-            le1 = bool(c) and c[0] == "Le" and lit_int(c[2]) == 1
-            then_push = any(x.get("k") == "MethodCall" and x.get("method") == "push" and local_name(x["args"][0]) is not None for x, _ in walk(ifs[0]["then"]))
-            else_ext = "else" in ifs[0] and any(x.get("k") == "MethodCall" and x.get("method") == "extend" and mentions(x, is_call_to("ResultNode::split")) for x, _ in walk(ifs[0]["else"]))
-            muts = [x["method"] for x, _ in walk(body) if x.get("k") == "MethodCall" and x.get("method") in ("push", "extend", "insert", "remove", "pop", "clear", "truncate")]
-            ok = plain and le1 and then_push and else_ext and sorted(muts) == ["extend", "push"]
-            detail = "loop over `%s`, guard `%s`, then-push=%s, else-extend(split)=%s, mutations=%s" % (render(it), render(ifs[0]["cond"]), then_push, else_ext, muts)
-        no_exit = not any(x.get("k") in ("Break", "Continue") for x, _ in walk(body))
+        node_lids = {l for l, _ in __import__("sverif.origins", fromlist=["pat_bindings"]).pat_bindings(pat)}
+        pushes = [x for x, _ in walk(body) if x.get("k") == "MethodCall" and x.get("method") == "push" and peel(x["args"][0]).get("lid") in node_lids]
+        exts = [x for x, _ in walk(body) if x.get("k") == "MethodCall" and x.get("method") == "extend" and mentions(x, is_call_to("ResultNode::split"))]
+        muts = sorted(x["method"] for x, _ in walk(body) if x.get("k") == "MethodCall" and x.get("method") in ("push", "extend", "insert", "remove", "pop", "clear", "truncate", "drain", "retain"))
+        if len(pushes) == 1 and len(exts) == 1:
+            # the node is kept unchanged exactly when it declares 0 or 1 unit, and replaced by its units from 2 on
+            p0, p1, p2 = (reachable_at(body, pushes[0]["id"], isv, v) for v in (0, 1, 2))
+            e1, e2, e5 = (reachable_at(body, exts[0]["id"], isv, v) for v in (1, 2, 5))
+            ok = plain and p0 is True and p1 is True and p2 is False and e1 is False and e2 is True and e5 is True and muts == ["extend", "push"]
+            detail = "loop over `%s`; push(node) reachable at num_splits=0,1,2: %s,%s,%s; extend(split) reachable at 1,2,5: %s,%s,%s; mutations=%s" % (
+                render(it), p0, p1, p2, e1, e2, e5, muts)
+        else:
+            detail = "%d unchanged pushes, %d extend(split) calls" % (len(pushes), len(exts))
+        no_exit = not any(x.get("k") == "Break" for x, _ in walk(body))
         ok = ok and no_exit
     ctx.ob("loop-shape", ok, "split_path loop: %s" % detail, fn=f)
     ns = [c for c, _ in walk(f.hir) if is_call(c) and path_ends(callee(c), "ResultNode::num_splits")]
@@ -190,32 +196,36 @@ def closure(db, ctx):
     ctx.ob("next|reads-head_word_length", bool(reads), "NodeSplitIterator::next reads head_word_length() (hence the closure requirement): %s" % bool(reads))
 
 
-@rule("C09.shared-input", "MorphemeList::split_into: zero units -> Ok(false) with no push; otherwise assign_input(self) precedes the pushes and "
-                          "the iterator is built from self.input()/self.subset()")
+@rule("C09.shared-input", "MorphemeList::split_into: with zero units it returns Ok(false) without touching the output; otherwise assign_input(self) "
+                          "precedes the pushes and the iterator is built from self.input()/self.subset()")
 def shared_input(db, ctx):
+    from ..flow import reachable_at, is_local_from_call, holds_at, var_evaluator
     f = db.one("split_into", "MorphemeList")
-    iff = None
-    for n, _ in walk(f.hir):
-        if n.get("k") == "If" and "num_splits" in render(n["cond"]):
-            iff = n
-    if iff is None:
-        raise AnchorMissing("split_into: num_splits decision")
-    c = cmp_atom(iff["cond"])
-    zero = bool(c) and c[0] == "Eq" and lit_int(c[2]) == 0
-    then_clean = not any(x.get("k") == "MethodCall" and x.get("method") in ("push", "extend") for x, _ in walk(iff["then"])) and "Ok(false)" in render(iff["then"])
-    ctx.ob("zero-units", zero and then_clean, "`%s` -> `%s` without touching the output list" % (render(iff["cond"]), render(iff["then"])), fn=f)
-    els = iff.get("else", {})
+    isv = is_local_from_call("ResultNode::num_splits")
     order = []
-    for x, _ in walk(els):
-        if x.get("k") == "MethodCall" and x.get("method") in ("assign_input", "push", "input", "subset", "split"):
-            order.append(x["method"])
-    ok = order and order[0] == "assign_input" and "push" in order and order.index("assign_input") < order.index("push") and "input" in order and "subset" in order
-    arg_ok = any(x.get("k") == "MethodCall" and x.get("method") == "assign_input" and local_name(x["args"][0]) == "self" for x, _ in walk(els))
-    ctx.ob("assign-input-first", bool(ok) and arg_ok, "else-branch call order %s; assign_input(self)=%s" % (order, arg_ok), fn=f)
-    spc = [x for x, _ in walk(els) if is_call(x) and path_ends(callee(x), "ResultNode::split")]
-    ok2 = bool(spc) and render(call_args(spc[0])[1]) == "mode" and "subset" in render(call_args(spc[0])[3]) and "input" in render(call_args(spc[0])[4])
+    nodes_ = {}
+    for x, _ in walk(f.hir):
+        if x.get("k") == "MethodCall" and x.get("method") in ("assign_input", "push", "extend", "input", "subset") or (is_call(x) and path_ends(callee(x), "ResultNode::split")):
+            nm = x.get("method") if x.get("k") == "MethodCall" and x.get("method") != "split" else "split"
+            order.append(nm)
+            nodes_.setdefault(nm, x)
+    muts = [nodes_[m] for m in ("assign_input", "push", "extend") if m in nodes_]
+    untouched = all(reachable_at(f.hir, m["id"], isv, 0) is False for m in muts) and bool(muts)
+    ret_false = False
+    for x, ps in walk(f.hir):
+        e = peel(x)
+        if e.get("k") == "Call" and path_ends(e.get("callee"), ("Ok", "Result::Ok")) and e["args"] and peel(e["args"][0]).get("v") is False:
+            if reachable_at(f.hir, e["id"], isv, 0) is not False and reachable_at(f.hir, e["id"], isv, 2) is False:
+                ret_false = True
+    ctx.ob("zero-units", untouched and ret_false, "at num_splits == 0 the output list is not touched (%s) and Ok(false) is what is returned (%s)" % (untouched, ret_false), fn=f)
+    ok = "assign_input" in order and ("push" in order or "extend" in order) and order.index("assign_input") < min(order.index(m) for m in ("push", "extend") if m in order) \
+        and "input" in order and "subset" in order
+    arg_ok = any(x.get("k") == "MethodCall" and x.get("method") == "assign_input" and local_name(x["args"][0]) == "self" for x, _ in walk(f.hir))
+    ctx.ob("assign-input-first", bool(ok) and arg_ok, "call order %s; assign_input(self)=%s" % (order, arg_ok), fn=f)
+    spc = [x for x, _ in walk(f.hir) if is_call(x) and path_ends(callee(x), "ResultNode::split")]
+    ok2 = bool(spc) and render(call_args(spc[0])[1]) == "mode" and "subset" in render(call_args(spc[0])[3], x=True) and "input" in render(call_args(spc[0])[4], x=True)
     ctx.ob("split-args", ok2, "node.split(%s)" % (", ".join(render(a) for a in call_args(spc[0])[1:]) if spc else None), fn=f)
-    node_src = any(n.get("k") == "Let" and n["pat"].get("name") == "node" and "self.node(index)" in render(n["init"]) for n, _ in walk(f.hir))
+    node_src = bool(spc) and "self.node(index)" in render(call_args(spc[0])[0], x=True)
     ctx.ob("node=self.node(index)", node_src, "the split node is self.node(index): %s" % node_src, fn=f)
 
 
